@@ -138,6 +138,41 @@ let dump_of_field (f : string) : (n list * (n list * n) list) option =
       let rows = split '.' (String.sub f (i + 1) (String.length f - i - 1)) in
       (try Some (name, List.map (fun r -> let (h, sz) = split2 r in (id_of_handle h, n_of_int (int_of_string sz))) rows) with _ -> None)
 
+
+(* ---- Coq terms of sampled cases, for the in-kernel cross-check ---- *)
+let coq_n (x : n) = string_of_int (int_of_n x)
+let coq_str (l : n list) = "[" ^ String.concat ";" (List.map coq_n l) ^ "]"
+let coq_z (x : z) = "(" ^ string_of_int (int_of_z x) ^ ")%Z"
+let coq_list f l = "[" ^ String.concat "; " (List.map f l) ^ "]"
+let coq_store (st : store) =
+  coq_list (fun (name, b) ->
+    "(" ^ coq_str name ^ ", {| mnext := " ^ coq_n b.mnext ^ "; mmsgs := " ^
+    coq_list (fun m -> "{| sid := " ^ coq_str m.sid ^ "; ssrc := " ^ coq_str m.ssrc ^ " |}") b.mmsgs ^ " |})") st
+let coq_event = function
+  | ELine l -> "ELine " ^ coq_str l
+  | ECmd _ -> failwith "ECmd not printed"
+  | EDeliver (a, b) -> "EDeliver " ^ coq_str a ^ " " ^ coq_str b
+  | ERemove (a, b) -> "ERemove " ^ coq_str a ^ " " ^ coq_str b
+  | EPurge a -> "EPurge " ^ coq_str a
+  | EWriteBreak -> "EWriteBreak"
+  | EEof -> "EEof"
+  | EReadErr -> "EReadErr"
+let coq_body = function
+  | BNone -> "BNone" | BCapa -> "BCapa" | BFail -> "BFail" | BPanic -> "BPanic"
+  | BList rows -> "BList " ^ coq_list (fun (a, b) -> "(" ^ coq_n a ^ ", " ^ coq_n b ^ ")") rows
+  | BUidl rows -> "BUidl " ^ coq_list (fun (a, b) -> "(" ^ coq_n a ^ ", " ^ coq_str b ^ ")") rows
+  | BWire w -> "BWire " ^ coq_str w
+  | BRaw w -> "BRaw " ^ coq_str w
+let coq_reply (r : reply) =
+  "{| r_ok := " ^ (if r.r_ok then "true" else "false") ^ "; r_nums := " ^ coq_list coq_z r.r_nums ^
+  "; r_id := " ^ (match r.r_id with None -> "None" | Some i -> "Some " ^ coq_str i) ^
+  "; r_body := " ^ coq_body r.r_body ^ " |}"
+let coq_dump (d : (n list * (n list * n) list) list) =
+  coq_list (fun (name, rows) -> "(" ^ coq_str name ^ ", " ^ coq_list (fun (i, sz) -> "(" ^ coq_str i ^ ", " ^ coq_n sz ^ ")") rows ^ ")") d
+let coq_cases : string list ref = ref []
+let coq_cases_path = Sys.getenv_opt "C13_COQ_CASES"
+let coq_cases_max = 150
+
 let reason_text (r : n) : string =
   match int_of_n r with
   | 1 -> "server-panic"
@@ -232,6 +267,15 @@ let () =
                   | _, _ -> "ok" in
                 check 0 groups runs
               end in
+        (match coq_cases_path, runs with
+         | Some _, [(st, evs, _)] when String.length line < 3000 && List.length !coq_cases < coq_cases_max && verdict = "ok" ->
+             let rfs = List.filter (fun f -> f <> "" && f.[0] <> 'S') outs in
+             let dfs = List.filter (fun f -> f <> "" && f.[0] = 'S') outs in
+             let rs = List.filter_map reply_of_field rfs and ds = List.filter_map dump_of_field dfs in
+             if List.length rs = List.length rfs && List.length ds = List.length dfs then
+               coq_cases := ("(" ^ (match fl' with Mem -> "Mem" | File -> "File") ^ ", " ^ coq_store st ^ ",\n   " ^
+                             coq_list coq_event evs ^ ",\n   " ^ coq_list coq_reply rs ^ ",\n   " ^ coq_dump ds ^ ")") :: !coq_cases
+         | _ -> ());
         Mlutil.print_model model_outs verdict
     | "stress", _ ->
         (* real interleavings: the driver checked the property on the replies itself *)
@@ -240,4 +284,16 @@ let () =
           | o :: _ -> "fail:stress-" ^ o
           | [] -> "fail:stress-no-answer" in
         Mlutil.print_model ["ok"] verdict
-    | _ -> Mlutil.print_model ["UNKNOWN-KIND"] "ok")
+    | _ -> Mlutil.print_model ["UNKNOWN-KIND"] "ok");
+  (match coq_cases_path with
+   | Some path ->
+       let oc = open_out path in
+       output_string oc "(* GENERATED by ml/c13_run.ml: sampled cases (what the implementation answered) re-evaluated by the kernel. *)\n";
+       output_string oc "From IV Require Import Base.Bytes Model.Pop3Wire Model.Pop3.\nOpen Scope N_scope.\n";
+       output_string oc "Definition cases : list (flavour * store * list event * list reply * list (str * list (str * N))) :=\n [";
+       output_string oc (String.concat ";\n  " (List.rev !coq_cases));
+       output_string oc "].\nDefinition bad := Eval vm_compute in filter (fun c => negb (case_ok c)) cases.\n";
+       output_string oc "Lemma all_ok : bad = []. Proof. reflexivity. Qed.\n";
+       Printf.fprintf oc "(* %d cases *)\n" (List.length !coq_cases);
+       close_out oc
+   | None -> ())
